@@ -24,7 +24,9 @@ func init() {
 			"script-side operations (write k<-v, delete k, length=n, push, pop, method calls) and Go-side operations (set, insert, delete, append, reslice) on 7 live " +
 			"containers, sharded by (container, first operation), states deduplicated on (Go contents, script-held header, aliasing, script-only properties); " +
 			"every transition is replayed on a fresh container and judged by the transition relation plus view coherence (traversal, Object.keys, for-in, " +
-			"JSON.stringify, length, read and in for every key of the alphabet). lethal: delete of non-index keys on slices/arrays, each in a child process. " +
+			"JSON.stringify, length, read and in for every key of the alphabet); Go-side alphabets include size-preserving replacements (delete one key + insert another as one " +
+			"operation and as two, same-length slice/array replacement in place and of the Go variable); every path of length >= 2 is replayed a second time observing " +
+			"(enumerating) only the initial and the final state, which must equal the fully observed replay (enumerate / mutate / enumerate); depth 3 for the map containers also in quick. lethal: delete of non-index keys on slices/arrays, each in a child process. " +
 			"A matrix cell is non-trivial when the callee was reached; a history transition when the operation completed without throwing.",
 		Families: []engine.Family{
 			{Name: "matrix", Run: runMatrix},
